@@ -194,6 +194,56 @@ def replay_agg(a):
     return None if not bad else {"mismatches": bad}
 
 
+def deep_case(suite, depth):
+    """SkToPk / Sign / PopProve called with `depth` caller frames on the stack (interpreter's default
+    recursion limit): the model's bytes or RecursionError, never other bytes"""
+    import sys
+    import inspect
+    C = suite_cls(suite)
+    sk = 0x1B2C3D4E5F60718293A4B5C6D7E8F9
+    want = {"pk": MB.sk_to_pk(sk), "sig": MB.sign(suite, sk, b"deep"), "pop": MB.pop_prove(sk) if suite == "pop" else None}
+
+    def deep(n_, f):
+        return f() if n_ <= 0 else deep(n_ - 1, f)
+
+    out = []
+    for what, f in (("pk", lambda: C.SkToPk(sk)), ("sig", lambda: C.Sign(sk, b"deep"))) + ((("pop", lambda: C.PopProve(sk)),) if suite == "pop" else ()):
+        old = sys.getrecursionlimit()
+        try:
+            sys.setrecursionlimit(max(1000, len(inspect.stack(0)) + 60))
+            got = bytes(deep(depth, f))
+        except RecursionError:
+            got = None
+        except Exception as e:  # noqa: BLE001
+            got = "raise " + type(e).__name__
+        finally:
+            sys.setrecursionlimit(old)
+        if got is not None:
+            out.append((what, want[what], got))
+    return out
+
+
+def task_deep(a, env):
+    r = R("calls-from-a-deep-caller-stack")
+    for suite in a["suites"]:
+        for depth in range(80, 990, a["step"]):
+            for what, exp, got in deep_case(suite, depth):
+                r.ev += 1
+                r.dk.add((suite, depth, what))
+                if exp != got:
+                    r.viol("C09:%s:deep-stack:%s" % (suite, what), ME + ":replay_deep", {"suite": suite, "depth": depth}, exp, got,
+                           note="%d caller frames" % depth)
+    r.sample({"depths": "80, %d, ... below the default recursion limit" % (80 + a["step"]), "accepted": "the model's bytes or RecursionError"})
+    return r
+
+
+def replay_deep(a):
+    for what, exp, got in deep_case(a["suite"], a["depth"]):
+        if exp != got:
+            return {"what": what, "expected": exp, "observed": got}
+    return None
+
+
 def run(ctx):
     ctx.rule = "one case per (function, suite, secret key, message); all distinct"
     ctx.assumptions = ["the model is independent of py_ecc and anchored to published vectors at setup",
@@ -212,4 +262,6 @@ def run(ctx):
     n = len(agg_lists(ctx.env))
     for i in range(n):
         tasks.append(("agg", {"idx": [i]}))
+    for s_ in ("basic", "aug", "pop"):
+        tasks.append(("deep", {"suites": [s_], "step": 130 if ctx.quick else 45}))
     ctx.pmap(ME, tasks)
